@@ -497,6 +497,12 @@ def c08_idle(spec, obs, sc=0, cal=None):
         if not mine:
             continue
         fwd = rec["forward"][sc] is not False
+        if t.get("sched") == "asap" and t.get("start") and not fwd:
+            # the text pins this task forward ('scheduling asap' with a start of its own): whatever is anchored downstream of it,
+            # it is an ASAP task and is judged as one
+            v.append(("idle-direction", f"{fid} states 'scheduling asap' with start {t['start']} but was scheduled backward "
+                                        f"({rec['start'][sc]} - {rec['end'][sc]})"))
+            continue
         slots = sorted({s for r in mine.values() for s in r})
         if fwd:
             bound = obs["pstart"]
